@@ -566,6 +566,18 @@ spec fn ptbl_ok(ss: Seq<u32>, nvb: u8, lg: u8) -> bool {
 }
 spec fn pholds(ss: Seq<u32>, item: u32) -> bool { exists|i: int| 0 <= i < ss.len() && ss[i] == item }
 
+proof fn lemma_pshl(l: u8)
+  requires l < 32
+  ensures (1u32 << l) == pow2(l as nat), pow2(l as nat) >= 1, l <= 26 ==> pow2(l as nat) <= 0x400_0000
+{
+    lemma2_to64(); lemma_pow2_pos(l as nat);
+    lemma_pow2_strictly_increases(l as nat, 32);
+    if l < 26 { lemma_pow2_strictly_increases(l as nat, 26); }
+    vstd::bits::lemma_u32_shl_is_mul(1, l as u32);
+    assert((1u32 << (l as u32)) == (1u32 << l));
+}
+proof fn lemma_pow2_increases(a: nat, b: nat) requires a <= b ensures pow2(a) <= pow2(b) { if a < b { lemma_pow2_strictly_increases(a, b); } }
+
 impl PairTable {
     spec fn wf(&self) -> bool {
         &&& ptbl_ok(self.slots@, self.num_valid_bits, self.lg_size)
@@ -593,6 +605,88 @@ impl PairTable {
         exists|idx: int| 0 <= idx < old(self).slots@.len() && old(self).slots@[idx] == EMPTY && final(self).slots@ == #[trigger] old(self).slots@.update(idx, item)
             && exists|j: int| 0 <= j < old(self).slots@.len() && idx == ppos(item, old(self).num_valid_bits, old(self).lg_size, j, old(self).slots@.len() as int) && #[trigger] pfull_before(old(self).slots@, item, old(self).num_valid_bits, old(self).lg_size, j),
     { unimplemented!() }
+
+    // A constructor specifically tailored to be a part of FM85 decompression scheme: REACHED FROM deserialize with decoded (attacker-chosen) pairs.
+    // The preconditions are what its asserts / arithmetic / indexing need; the decompressor establishes none of them for arbitrary bytes.
+    fn from_slots(lg_size: u8, num_items: u32, slots: Vec<u32>) -> (r: Self)
+      requires
+        4 <= lg_size <= 26,     // = lg_k, validated by the parser
+        /*@C14.cpc.from_slots.count*/ num_items <= slots@.len(),
+        // `4 * num_items` (u32), `Self::new` asserts lg_num_slots <= 26 and lg_num_slots + 1 <= 6 + lg_size
+        /*@C14.cpc.from_slots.fits*/ 4 * num_items <= 3 * pow2(26) && 4 * num_items <= 3 * pow2((5 + lg_size) as nat),
+        // `lookup` asserts probe <= mask; u32::MAX is the empty marker
+        /*@C14.cpc.from_slots.range*/ forall|i: int| 0 <= i < num_items ==> slots@[i] != EMPTY && (#[trigger] slots@[i] as int) < pow2((6 + lg_size) as nat),
+        // `must_insert` asserts the item is not yet present
+        /*@C14.cpc.from_slots.distinct*/ forall|i: int, j: int| 0 <= i < j < num_items ==> slots@[i] != slots@[j],
+      ensures
+        r.wf(), r.num_valid_bits == 6 + lg_size, r.num_items == num_items,
+        forall|x: u32| #[trigger] r.items().contains(x) <==> (exists|i: int| 0 <= i < num_items && slots@[i] == x),
+    {
+        let mut lg_num_slots = 2;
+        proof { lemma2_to64(); lemma_pshl(2); }
+        while UPSIZE_DENOMINATOR * num_items > (UPSIZE_NUMERATOR * (1 << lg_num_slots))
+          invariant 2 <= lg_num_slots <= 26, lg_num_slots <= 5 + lg_size, (1u32 << lg_num_slots) == pow2(lg_num_slots as nat), pow2(26) == 0x400_0000, pow2(lg_num_slots as nat) <= 0x400_0000,
+            4 * num_items <= 3 * pow2(26) && 4 * num_items <= 3 * pow2((5 + lg_size) as nat), 4 <= lg_size <= 26,
+          decreases 26 - lg_num_slots
+        {
+            proof {
+                lemma_pshl(lg_num_slots); lemma_pshl((lg_num_slots + 1) as u8);
+                if lg_num_slots >= 26 { assert(false); }
+                if lg_num_slots >= 5 + lg_size { lemma_pow2_increases((5 + lg_size) as nat, lg_num_slots as nat); assert(false); }
+            }
+            lg_num_slots += 1;
+        }
+        proof { lemma_pshl(lg_num_slots); }
+
+        let mut table = Self::new(lg_num_slots, 6 + lg_size);
+        proof {
+            assert(pocc(table.slots@) =~= Set::<int>::empty());
+        }
+
+        // Note: there is a possible "snowplow effect" here because the caller is passing in a
+        // sorted pairs array. However, we are starting out with the correct final table size, so
+        // the problem might not occur.
+
+        for i in 0..num_items
+          invariant
+            table.lg_size == lg_num_slots, table.num_valid_bits == 6 + lg_size, 4 <= lg_size <= 26,
+            ptbl_ok(table.slots@, table.num_valid_bits, table.lg_size), table.slots@.len() == pow2(lg_num_slots as nat),
+            pocc(table.slots@).len() == i, 4 * num_items <= 3 * pow2(lg_num_slots as nat), num_items <= slots@.len(),
+            forall|i: int| 0 <= i < num_items ==> slots@[i] != EMPTY && (#[trigger] slots@[i] as int) < pow2((6 + lg_size) as nat),
+            forall|i: int, j: int| 0 <= i < j < num_items ==> slots@[i] != slots@[j],
+            forall|x: u32| x != EMPTY ==> (#[trigger] pholds(table.slots@, x) <==> (exists|j: int| 0 <= j < i && slots@[j] == x)),
+        {
+            let ghost ss0 = table.slots@;
+            let ghost item = slots@[i as int];
+            proof {
+                if pholds(ss0, item) { let j = choose|j: int| 0 <= j < i && slots@[j] == item; assert(false); }
+            }
+            table.must_insert(slots[i as usize]);
+            proof {
+                let idx = choose|idx: int| 0 <= idx < ss0.len() && ss0[idx] == EMPTY && table.slots@ == #[trigger] ss0.update(idx, item);
+                assert(pocc(table.slots@) =~= pocc(ss0).insert(idx));
+                assert(!pocc(ss0).contains(idx));
+                assert forall|x: u32| x != EMPTY implies (#[trigger] pholds(table.slots@, x) <==> (exists|j: int| 0 <= j < i + 1 && slots@[j] == x)) by {
+                    let ss1 = table.slots@;
+                    if pholds(ss1, x) {
+                        let t = choose|t: int| 0 <= t < ss1.len() && ss1[t] == x;
+                        if t == idx { assert(slots@[i as int] == x); } else { assert(ss0[t] == x); assert(pholds(ss0, x)); let j = choose|j: int| 0 <= j < i && slots@[j] == x; assert(0 <= j < i + 1 && slots@[j] == x); }
+                    }
+                    if exists|j: int| 0 <= j < i + 1 && slots@[j] == x {
+                        let j = choose|j: int| 0 <= j < i + 1 && slots@[j] == x;
+                        if j == i { assert(ss1[idx] == x); } else { assert(pholds(ss0, x)); let t = choose|t: int| 0 <= t < ss0.len() && ss0[t] == x; assert(t != idx); assert(ss1[t] == x); }
+                    }
+                }
+            }
+        }
+        table.num_items = num_items;
+        proof {
+            assert forall|x: u32| #[trigger] table.items().contains(x) <==> (exists|i: int| 0 <= i < num_items && slots@[i] == x) by {
+                if exists|i: int| 0 <= i < num_items && slots@[i] == x { let i = choose|i: int| 0 <= i < num_items && slots@[i] == x; assert(x != EMPTY); }
+            }
+        }
+        table
+    }
 }
 
 // =====================================================================================================================
